@@ -218,6 +218,33 @@ func (b *builder) defCompInTree() []*gen.Node {
 	return append(out, gen.Set(name, lit), gen.Set(tmp, gen.Int(0)))
 }
 
+// defFnBox: a container that certainly holds a function (defined first when there is none yet).
+func (b *builder) defFnBox() []*gen.Node {
+	var out []*gen.Node
+	if len(b.fns) == 0 || b.intn(3, "boxNewFn") == 0 {
+		out = append(out, b.defFunc(3)...)
+	}
+	if len(b.fns) == 0 {
+		return append(out, b.defTree(2)...)
+	}
+	f := gen.Var(b.fns[b.intn(len(b.fns), "boxFn")].Name)
+	var lit *gen.Node
+	switch b.intn(4, "boxShape") {
+	case 0:
+		lit = gen.N("arr", b.leaf(), f)
+	case 1:
+		lit = gen.N("dict", gen.Str([]string{"k", "x", "a b"}[b.intn(3, "boxKey")], 0), f)
+	case 2:
+		lit = gen.N("arr", gen.N("dict", gen.Str("hp", 0), gen.N("arr", f, b.leaf())), b.tree(1))
+	default:
+		lit = gen.N("dict", gen.Str("y", 0), gen.N("arr", b.tree(1), f))
+	}
+	name := b.g.FreshName()
+	b.g.Env.Put(&gen.VarInfo{Name: name, T: gen.TAny, Len: -1})
+	b.trees = append(b.trees, treeVar{Name: name, Lit: lit, HasFn: true})
+	return append(out, gen.Set(name, lit))
+}
+
 // attrValue: what a computed value's attribute may hold (scalars mostly, sometimes a small container).
 func (b *builder) attrValue() *gen.Node {
 	if b.intn(4, "attrTree") == 0 {
@@ -427,7 +454,15 @@ func (b *builder) use(readOnly bool) (*gen.Node, string) {
 				}
 				return gen.MCall(e, "push", b.tree(1)), "mutate-path"
 			case "dict":
-				return gen.N("setidx", e, gen.Str(keyPool[b.intn(len(keyPool), "mutKey")], 0), b.tree(1)), "mutate-path"
+				k := keyPool[b.intn(len(keyPool), "mutKey")]
+				if !b.multiKey {
+					// keep every dict at one key: its text form must not depend on Go map order
+					k = "k"
+					if len(n.Kids) >= 2 {
+						k = n.Kids[0].S
+					}
+				}
+				return gen.N("setidx", e, gen.Str(k, 0), b.tree(1)), "mutate-path"
 			}
 			continue
 		case 9:
@@ -480,14 +515,14 @@ func drawSnap(t *rapid.T, noAlias bool) Case {
 	b := &builder{t: t, g: g, multiKey: rapid.Bool().Draw(t, "multiKey")}
 	nseg := rapid.IntRange(1, 5).Draw(t, "nseg")
 	cut := rapid.IntRange(0, nseg).Draw(t, "cut")
-	if nseg >= 2 && rapid.IntRange(0, 3).Draw(t, "cutInside") != 0 {
+	if nseg >= 2 && rapid.IntRange(0, 9).Draw(t, "cutInside") != 0 {
 		cut = 1 + rapid.IntRange(0, nseg-2).Draw(t, "cutIn")
 	}
 	c.Cut = cut
 	for i := 0; i < nseg; i++ {
 		var kinds []string
 		if i < cut {
-			kinds = []string{"tree", "tree", "func", "func", "comp", "comp", "comp-in-tree", "gen", "gen", "gen", "use"}
+			kinds = []string{"tree", "tree", "func", "func", "fn-box", "comp", "comp", "comp-in-tree", "gen", "gen", "use"}
 		} else {
 			kinds = []string{"use", "use", "use", "use", "use", "use", "gen", "gen", "gen", "final", "func", "comp", "tree"}
 		}
@@ -505,6 +540,8 @@ func drawSnap(t *rapid.T, noAlias bool) Case {
 				stmts = append(stmts, b.defComp(3)...)
 			case "comp-in-tree":
 				stmts = append(stmts, b.defCompInTree()...)
+			case "fn-box":
+				stmts = append(stmts, b.defFnBox()...)
 			case "gen":
 				stmts = append(stmts, g.Stmt(3)...)
 			case "final":
@@ -594,6 +631,9 @@ func drawValue(t *rapid.T, avoidDagNow func() bool) Case {
 	switch kind {
 	case "tree":
 		lit = b.tree(2 + b.intn(3, "depth"))
+		if lit.K != "arr" && lit.K != "dict" {
+			lit = gen.N("arr", lit, b.tree(2))
+		}
 		build = append(build, gen.Set(name, lit))
 	case "computed":
 		// a computed value as the value itself, with attributes that hold trees
